@@ -1,0 +1,8 @@
+//go:build !verif
+
+// Package verifhook provides instrumentation points used only by the external
+// verification harness. With the "verif" build tag off every call compiles to nothing.
+package verifhook
+
+// At is a no-op unless built with the verif tag.
+func At(_ string, _ ...any) {}
